@@ -10,7 +10,7 @@ use serde_json::{json, Value};
 pub fn meta() -> Meta {
     Meta {
         level: "exploration",
-        rule: "every string of at most k symbols over each of five 14-symbol alphabets of lexically critical atoms (E-CHAR) and every rendered token sequence of E-TOK, each enumerated exactly once; a case is non-trivial when the lexer yields at least two tokens of which at least one is neither whitespace nor unknown; distinct = distinct input strings (hash set), outcomes = distinct (kind,length) streams",
+        rule: "every string of at most k symbols over each of eleven 14-symbol alphabets of lexically critical atoms (E-CHAR) and every rendered token sequence of E-TOK, each enumerated exactly once; a case is non-trivial when the lexer yields at least two tokens of which at least one is neither whitespace nor unknown; distinct = distinct input strings (hash set), outcomes = distinct (kind,length) streams",
         assumptions: vec![
             "strings longer than the bound and characters outside the alphabets are not covered",
             "rustc/cargo, the harness itself",
